@@ -18,6 +18,7 @@
 //        NOUT spendable outputs P2WSH(OP_TRUE) sharing (inputs - FEE) equally (inputs unknown: 1 BTC each);
 //        PAD > 0: one more output OP_RETURN <PAD bytes>;  SIGOPS > 0: one more output of SIGOPS x OP_CHECKSIG (value 0)
 //   atmp NAME / test NAME               ProcessTransaction(tx, test_accept = false / true)
+//   pkg NAME NAME ...                   ProcessNewPackage(chainstate, pool, {txs}, test_accept = false, no max feerate)
 //   mine BLK T NAME*                    block on the active tip with nTime = T0 + T holding the named txs; ProcessNewBlock
 //   fork BLK PARENT T NAME*             same on PARENT = block name | F (fixture tip) | h<k> (active block at height k)
 //   inval BLK|h<k> / recon BLK|h<k>     bodies of the invalidateblock / reconsiderblock RPCs
@@ -66,6 +67,7 @@ const std::function<std::string()> G_TEST_GET_FULL_NAME{[]() { return std::strin
 #include <consensus/validation.h>
 #include <key.h>
 #include <node/blockstorage.h>
+#include <policy/packages.h>
 #include <policy/policy.h>
 #include <pow.h>
 #include <primitives/block.h>
@@ -589,6 +591,35 @@ struct Run {
             }
             std::string same = test ? (fingerprint() == before ? " same=1" : " same=0") : "";
             return tail(std::string(test ? "t " : "a ") + w[1] + " " + verdict + extra + same);
+        }
+        if (o == "pkg" && w.size() >= 2) {
+            Package package;
+            std::vector<std::string> names(w.begin() + 1, w.end());
+            for (const std::string& n : names) {
+                auto it = txs.find(n);
+                if (it == txs.end()) throw std::runtime_error("BADSCRIPT");
+                package.push_back(it->second.tx);
+            }
+            std::string pstate;
+            std::vector<std::string> verdicts;
+            {
+                LOCK(cs_main);
+                PackageMempoolAcceptResult r = ProcessNewPackage(cm().ActiveChainstate(), pool(), package, /*test_accept=*/false, /*client_maxfeerate=*/{});
+                pstate = r.m_state.IsValid() ? "ok" : r.m_state.GetRejectReason();
+                for (char& c : pstate) if (c == ' ') c = '_';
+                if (pstate.empty()) pstate = "invalid";
+                for (size_t i = 0; i < package.size(); ++i) {
+                    auto it = r.m_tx_results.find(package[i]->GetWitnessHash());
+                    std::string v = "none";
+                    if (it != r.m_tx_results.end()) {
+                        if (it->second.m_result_type == MempoolAcceptResult::ResultType::VALID) v = "ok";
+                        else if (it->second.m_result_type == MempoolAcceptResult::ResultType::MEMPOOL_ENTRY) v = "already";
+                        else v = canon_tx_reason(it->second.m_state);
+                    }
+                    verdicts.push_back(names[i] + ":" + v);
+                }
+            }
+            return tail("k " + join(names, ",") + " " + pstate + " v=" + join(verdicts, ","));
         }
         if ((o == "mine" && w.size() >= 3) || (o == "fork" && w.size() >= 4)) {
             size_t k = o == "mine" ? 2 : 3;
